@@ -634,11 +634,16 @@ impl C05 {
         };
         let mut all_words: Vec<Vec<i64>> = vec![];
         let mut all_real: Vec<Vec<i64>> = vec![];
+        let mut n_whole = 0;
         for text in texts {
             let mut list: Vec<ds::Horizontal> = vec![];
             if let Err(p) = caught(|| tp.add_text(text, &mut list)) {
                 out.fail(Kind::ImplPanic, stream, format!("panic {}", strip_msg(&p)), format!("add_text({text:?}) panicked: {p}"));
                 return;
+            }
+            if stream == "text" || n_whole < 6 {
+                n_whole += 1;
+                compare_nodes("txt", 0, penc, text, &list, stream, drv, out);
             }
             match cut_segments(&list, text, 0, out) {
                 Err((sig, d)) => out.fail(Kind::ImplVsSpec, stream, sig, d),
@@ -768,12 +773,16 @@ fn cut_segments(
     Ok((words, real))
 }
 
-/// S's own reading of a TFM file's lig/kern data (TFtoPL.2014 par.8-13, TeX82 par.540-545),
-/// independent of the crate's deserializer: the `nl` instruction words, the boundary char
-/// (first word, skip_byte 255), the left-boundary program (last word, skip_byte 255), the
-/// kerns, and the entry point of every character whose tag is 1 (through a redirect word if
-/// its skip_byte exceeds 128). `None` if the lengths in the preamble do not add up.
-fn decode_tfm_ligkern(b: &[u8]) -> Option<Prog> {
+/// The lig/kern part of a TFM file as raw data: the `nl` four-byte words, for every character
+/// whose `char_info` tag is 1 its remainder, and the kerns (raw fix words). Only byte slicing
+/// by the lengths of the preamble (TFtoPL.2014 par.8-11); `None` if they do not add up.
+struct RawTfm {
+    words: Vec<[u8; 4]>,
+    tags: Vec<(i64, i64)>,
+    kerns: Vec<i64>,
+}
+
+fn slice_tfm(b: &[u8]) -> Option<RawTfm> {
     if b.len() < 24 {
         return None;
     }
@@ -787,9 +796,42 @@ fn decode_tfm_ligkern(b: &[u8]) -> Option<Prog> {
     let lk = ci + 4 * (nc + nw + nh + nd + ni);
     let kn = lk + 4 * nl;
     let word = |at: usize| [b[at], b[at + 1], b[at + 2], b[at + 3]];
-    let mut p = Prog { rb: -1, lb: -1, entries: vec![], kerns: vec![], instrs: vec![] };
-    for i in 0..nl {
-        let [skip, next_char, op, rem] = word(lk + 4 * i);
+    let mut r = RawTfm { words: (0..nl).map(|i| word(lk + 4 * i)).collect(), tags: vec![], kerns: vec![] };
+    for i in 0..nk {
+        r.kerns.push(i32::from_be_bytes(word(kn + 4 * i)) as i64);
+    }
+    for i in 0..nc {
+        let [_, _, t, rem] = word(ci + 4 * i);
+        if t % 4 == 1 {
+            r.tags.push(((bc + i) as i64, rem as i64));
+        }
+    }
+    Some(r)
+}
+
+/// The request that asks the Lean model (`decodeFont`, under theorem `raw_rule`) for the
+/// program in these raw words.
+fn dec_request(r: &RawTfm) -> String {
+    let mut v: Vec<i64> = vec![r.words.len() as i64];
+    for w in &r.words {
+        v.extend(w.iter().map(|x| *x as i64));
+    }
+    v.push(r.tags.len() as i64);
+    for (c, e) in &r.tags {
+        v.extend([*c, *e]);
+    }
+    v.push(r.kerns.len() as i64);
+    v.extend(&r.kerns);
+    format!("dec {}", join(&v))
+}
+
+/// The harness's own (second, independent) reading of the raw words, kept as a cross-check of
+/// the Lean decoder (TFtoPL.2014 par.8-13, TeX82 par.540-545).
+fn decode_raw(raw: &RawTfm) -> Prog {
+    let nl = raw.words.len();
+    let mut p = Prog { rb: -1, lb: -1, entries: vec![], kerns: raw.kerns.clone(), instrs: vec![] };
+    for w in &raw.words {
+        let [skip, next_char, op, rem] = *w;
         let (skip, r, op, rem) = (skip as i64, next_char as i64, op as i64, rem as i64);
         if skip > 128 {
             p.instrs.push([-1, r, 3, op * 256 + rem, 1]);
@@ -813,34 +855,117 @@ fn decode_tfm_ligkern(b: &[u8]) -> Option<Prog> {
         }
     }
     if nl > 0 {
-        let [skip, c, _, _] = word(lk);
+        let [skip, c, _, _] = raw.words[0];
         if skip == 255 {
             p.rb = c as i64;
         }
-        let [skip, _, op, rem] = word(lk + 4 * (nl - 1));
+        let [skip, _, op, rem] = raw.words[nl - 1];
         if skip == 255 {
             p.lb = op as i64 * 256 + rem as i64;
         }
     }
-    for i in 0..nk {
-        p.kerns.push(i32::from_be_bytes(word(kn + 4 * i)) as i64);
-    }
-    for i in 0..nc {
-        let [_, _, t, rem] = word(ci + 4 * i);
-        if t % 4 == 1 {
-            let e = rem as usize;
-            if e >= nl {
-                continue;
-            }
-            let [skip, _, op, r2] = word(lk + 4 * e);
-            let e = if skip > 128 { op as usize * 256 + r2 as usize } else { e };
-            if e < nl {
-                p.entries.push(((bc + i) as i64, e as i64));
-            }
+    for (c, e) in &raw.tags {
+        let e = *e as usize;
+        if e >= nl {
+            continue;
+        }
+        let [skip, _, op, r2] = raw.words[e];
+        let e = if skip > 128 { op as usize * 256 + r2 as usize } else { e };
+        if e < nl {
+            p.entries.push((*c, e as i64));
         }
     }
     p.entries.sort();
-    Some(p)
+    p
+}
+
+/// Compare the program the crate read from `bytes` (`q`, from the deserialised file) with the
+/// Lean model's decoding of the raw words (I vs M; the model is under `raw_rule`) and with
+/// the harness's own decoding; returns the program M and S are to be evaluated on.
+fn check_raw_decode(bytes: &[u8], q: &Prog, what: &str, drv: &mut Driver, out: &mut CaseOutcome) -> Prog {
+    let Some(raw) = slice_tfm(bytes) else {
+        out.tag("font:preamble-lengths-inconsistent(raw decoding skipped)");
+        return q.clone();
+    };
+    out.tag("font:raw-lig/kern-words-decoded-by-the-model");
+    if raw.words.len() > 255 {
+        out.tag("font:raw-more-than-255-words");
+    }
+    if raw.words.iter().any(|w| w[0] > 128) {
+        out.tag("font:raw-redirect-or-boundary-words");
+    }
+    let reply = drv.ask(&dec_request(&raw));
+    let (pm, agree) = reply.split_once('|').unwrap_or_else(|| panic!("driver reply malformed: {}", trunc(&reply)));
+    let m = Prog::dec(&parse_i64s(pm));
+    let mut m_sorted = m.clone();
+    m_sorted.entries.sort();
+    let diff = |d: &Prog| {
+        if d.instrs != q.instrs {
+            let i = d.instrs.iter().zip(&q.instrs).position(|(a, b)| a != b).unwrap_or(d.instrs.len().min(q.instrs.len()));
+            format!("instruction {i}: raw {:?}, read {:?}", d.instrs.get(i), q.instrs.get(i))
+        } else if d.rb != q.rb || d.lb != q.lb {
+            format!("boundary char / left-boundary entry: raw {} {}, read {} {}", d.rb, d.lb, q.rb, q.lb)
+        } else if d.kerns != q.kerns {
+            "kerns differ".to_string()
+        } else {
+            format!("entry points: raw {:?}, read {:?}", d.entries, q.entries)
+        }
+    };
+    if agree.trim() != "1" {
+        out.fail(Kind::ModelVsSpec, "font", "font: decoded program and TeX's reading of the raw words give different commands", what.to_string());
+    }
+    let d = decode_raw(&raw);
+    if d != m_sorted {
+        out.fail(Kind::ModelVsSpec, "font", "font: model and harness decode the raw words differently", format!("{what}: {}", diff(&d)));
+    }
+    if m_sorted != *q {
+        out.fail(
+            Kind::ImplVsSpec,
+            "font",
+            "font: lig/kern program read from the TFM file differs from its raw words",
+            format!("{what}: {}", diff(&m_sorted)),
+        );
+        return m_sorted;
+    }
+    q.clone()
+}
+
+/// A horizontal list in the driver's node encoding (`txt` / `txw` replies): characters and
+/// ligatures with their font, font kerns, empty discretionaries, glue (amount not compared: C12).
+fn enc_nodes(list: &[boxworks::ds::Horizontal]) -> Result<Vec<i64>, String> {
+    use boxworks::ds;
+    let mut v = vec![];
+    for h in list {
+        match h {
+            ds::Horizontal::Char(c) => v.extend([0, c.char as i64, c.font as i64]),
+            ds::Horizontal::Kern(k) if k.kind == ds::KernKind::Normal => v.extend([1, k.width.0 as i64]),
+            ds::Horizontal::Ligature(l) => {
+                let o: Vec<i64> = l.original_chars.chars().map(|c| c as i64).collect();
+                v.extend([2, l.char as i64, l.font as i64, l.includes_left_boundary as i64, l.includes_right_boundary as i64, o.len() as i64]);
+                v.extend(o);
+            }
+            ds::Horizontal::Discretionary(d) if d.pre_break.is_empty() && d.post_break.is_empty() && d.replace_count == 0 => v.push(3),
+            ds::Horizontal::Glue(_) => v.push(4),
+            other => return Err(format!("{other:?}")),
+        }
+    }
+    Ok(v)
+}
+
+/// I vs M on the whole list: the model's `addText` / `addWord` (under `add_text_cut`,
+/// `add_word_sem`) against what the real preprocessor appended.
+fn compare_nodes(req: &str, font: usize, penc: &str, text: &str, list: &[boxworks::ds::Horizontal], stream: &str, drv: &mut Driver, out: &mut CaseOutcome) {
+    let Ok(real) = enc_nodes(list) else { return }; // reported by cut_segments
+    let t: Vec<i64> = text.chars().map(|c| c as i64).collect();
+    let m = drv.ask(&format!("{req} {font} {penc} | {} {}", t.len(), join(&t)));
+    if m.trim() != join(&real) {
+        out.fail(
+            Kind::ImplVsModel,
+            stream,
+            format!("text: horizontal list differs from the model's {}", if req == "txt" { "add_text" } else { "add_word" }),
+            format!("text {text:?} font {font}\nimpl:  {}\nmodel: {}", join(&real), m.trim()),
+        );
+    }
 }
 
 fn trunc(s: &str) -> String {
@@ -1473,7 +1598,7 @@ impl C05 {
     /// `compile_from_tfm_file`; the program as Lean sees it (entry points unpacked by the real
     /// code, kerns scaled with the font's design size).
     #[allow(clippy::type_complexity)]
-    fn load_font_file(&self, rel: &str, out: &mut CaseOutcome) -> Option<(tfm::File, CompiledProgram, Vec<tfm::ligkern::InfiniteLoopError>, Prog)> {
+    fn load_font_file(&self, rel: &str, drv: &mut Driver, out: &mut CaseOutcome) -> Option<(tfm::File, CompiledProgram, Vec<tfm::ligkern::InfiniteLoopError>, Prog)> {
         let path = format!("{}/{}", self.repo(), rel);
         let bytes = std::fs::read(&path).unwrap_or_else(|e| panic!("cannot read {path}: {e}"));
         let r = caught(|| {
@@ -1500,27 +1625,7 @@ impl C05 {
                     .collect();
                 let mut q = Prog::from_real(&f.lig_kern_program, &entries, &f.kerns);
                 // the program as the crate read it must be the program in the file's raw words
-                match decode_tfm_ligkern(&bytes) {
-                    Some(d) => {
-                        out.tag("font:raw-lig/kern-words-decoded-independently");
-                        if d != q {
-                            let what = if d.instrs != q.instrs {
-                                let i = d.instrs.iter().zip(&q.instrs).position(|(a, b)| a != b).unwrap_or(d.instrs.len().min(q.instrs.len()));
-                                format!("instruction {i}: raw {:?}, read {:?}", d.instrs.get(i), q.instrs.get(i))
-                            } else if d.rb != q.rb || d.lb != q.lb {
-                                format!("boundary char / left-boundary entry: raw {} {}, read {} {}", d.rb, d.lb, q.rb, q.lb)
-                            } else if d.kerns != q.kerns {
-                                "kerns differ".to_string()
-                            } else {
-                                format!("entry points: raw {:?}, read {:?}", d.entries, q.entries)
-                            };
-                            out.fail(Kind::ImplVsSpec, "font", "font: lig/kern program read from the TFM file differs from its raw words", format!("{rel}: {what}"));
-                            // M and S are evaluated on the raw program
-                            q = d;
-                        }
-                    }
-                    None => out.tag("font:preamble-lengths-inconsistent(raw decoding skipped)"),
-                }
+                q = check_raw_decode(&bytes, &q, rel, drv, out);
                 let ds = f.header.design_size;
                 let ok = caught(|| {
                     for k in q.kerns.iter_mut() {
@@ -1629,18 +1734,28 @@ impl C05 {
                         let a = CompiledProgram::compile_from_pl_file(&pl);
                         let tf: tfm::File = pl.into();
                         let bytes = tf.serialize();
-                        let b = tfm::File::deserialize(&bytes).0.ok().map(|mut f| CompiledProgram::compile_from_tfm_file(&mut f));
-                        (a, b)
+                        let b = tfm::File::deserialize(&bytes).0.ok().map(|mut f| {
+                            let (cp, errs) = CompiledProgram::compile_from_tfm_file(&mut f);
+                            let es: HashMap<Char, u16> = f
+                                .lig_kern_entrypoints()
+                                .into_iter()
+                                .filter_map(|(c, e)| f.lig_kern_program.unpack_entrypoint(e).ok().map(|e| (c, e)))
+                                .collect();
+                            (cp, errs, Prog::from_real(&f.lig_kern_program, &es, &f.kerns))
+                        });
+                        (a, b, bytes)
                     });
                     match r {
                         Err(p) => out.fail(Kind::ImplPanic, "pl", format!("panic {}", strip_msg(&p)), format!("the PL path panicked: {p}")),
-                        Ok(((cp, errs), b)) => {
+                        Ok(((cp, errs), b, bytes)) => {
                             if let Ok(e) = prog.enc_scaled(ds) {
                                 let few = &words[..words.len().min(4)];
                                 self.compare("pl", &prog, &cp, &errs, few, drv, &mut out, &join(&e), "", opt);
                                 match b {
-                                    Some((cp, errs)) => {
+                                    Some((cp, errs, q)) => {
                                         out.tag("pack:pl-to-tfm-bytes-and-back");
+                                        // the written bytes, read by the model's decoder
+                                        check_raw_decode(&bytes, &q, "PL -> TFM bytes", drv, &mut out);
                                         self.compare("pl-tfm", &prog, &cp, &errs, few, drv, &mut out, &join(&e), "", opt);
                                     }
                                     None => out.tag("pack:pl-to-tfm-bytes-do-not-deserialize"),
@@ -1743,7 +1858,7 @@ impl C05 {
                         };
                         fonts.push(FontCtx { file, cp, penc, acyclic, ph });
                     } else if let Some(path) = spec.strip_prefix("file ") {
-                        let Some((file, cp, errs, q)) = self.load_font_file(path.trim(), &mut out) else {
+                        let Some((file, cp, errs, q)) = self.load_font_file(path.trim(), drv, &mut out) else {
                             return out;
                         };
                         let penc = join(&q.enc());
@@ -1799,6 +1914,7 @@ impl C05 {
                         }
                         2 | 3 => {
                             out.tag(if *code == 2 { "multi:add_text" } else { "multi:add_word" });
+                            compare_nodes(if *code == 2 { "txt" } else { "txw" }, cur, &fonts[cur].penc, &text, &list, "multi-font", drv, &mut out);
                             match cut_segments(&list, &text, cur as u32, &mut out) {
                                 Err((sig, d)) => {
                                     out.fail(Kind::ImplVsSpec, "multi-font", sig, d);
@@ -1841,7 +1957,7 @@ impl C05 {
             }
             "f" => {
                 out.tag("stream:corpus-font");
-                match self.load_font_file(rest.trim(), &mut out) {
+                match self.load_font_file(rest.trim(), drv, &mut out) {
                     None => {}
                     Some((f, cp, errs, q)) => {
                         if f.header.design_size != design_size() {
